@@ -24,7 +24,7 @@ RULE = (
     "+ one query (root Parent/Child/Node; boolean filter tree; optional inner/outer join along a relationship; DISTINCT; total ORDER BY; LIMIT/OFFSET) "
     "+ 3-7 assignments (strategy per relationship path of depth<=2 from default/lazyload/joinedload outer+inner/subqueryload/selectinload(chunksize)/immediateload; "
     "column options defer/undefer/undefer_group/load_only on root or path; yield_per; forced unique(); legacy Query). "
-    "pairs: every ordered pair of strategies on every nested path (a, a.b) x 4 query shapes on a fixed data set; chunk: selectin key-chunk boundary (499..1001 keys). "
+    "pairs: every ordered pair of strategies on every nested path (a, a.b) x 5 query shapes on two fixed data sets; chunk: selectin key-chunk boundary (499..1001 keys). "
     "Non-trivial: some assignment has LIMIT/OFFSET or DISTINCT together with an eager-loaded collection, or two different non-default strategies on nested paths; "
     "distinct = canonical JSON of the case"
 )
@@ -155,6 +155,18 @@ def norm_assignment(root, a, model, pinned=False):
         if s == "joined_inner" and not model.is_total(*p[-1]):
             s = "joined"
         strat[p] = s
+    excluded, splice_trigger = [], False
+    if root == "Node":
+        # known finding: a nested innerjoin=True eager join below an outer-joined self-referential relationship is spliced
+        # onto the sibling eager join of the same mapper that was added just before it (wrong rows, silently)
+        for b in ("children", "parent"):
+            p1 = (("Node", b),)
+            if strat[p1] == "joined" and strat[p1 + (("Node", "parent"),)] == "joined_inner" and strat[p1 + (("Node", "children"),)] in ("joined", "joined_inner"):
+                if pinned:
+                    splice_trigger = True
+                else:
+                    strat[p1 + (("Node", "parent"),)] = "joined"
+                    excluded.append("nested innerjoin joinedload next to a sibling joinedload on a self-referential mapper (known finding)")
     colopts = []
     for pi, kind, cols in a.get("co") or []:
         if pi < 0:
@@ -175,7 +187,7 @@ def norm_assignment(root, a, model, pinned=False):
             chosen = sorted({names[c % len(names)] for c in cols}) or [names[0]]
         colopts.append((path, target, kind, chosen))
     # one column-option kind per target path (defer + load_only on the same entity is redundant)
-    seen, uniq, excluded, trigger = set(), [], [], False
+    seen, uniq, trigger = set(), [], False
     for co in colopts:
         if co[0] in seen:
             continue
@@ -216,7 +228,7 @@ def norm_assignment(root, a, model, pinned=False):
     if need_unique or no_yield or a.get("uq"):
         yp = 0
     return {"strat": strat, "colopts": uniq, "need_unique": need_unique, "unique": need_unique or bool(a.get("uq")),
-            "excluded": excluded, "fk_trigger": trigger,
+            "excluded": excluded, "fk_trigger": trigger, "splice_trigger": splice_trigger,
             "yp": yp, "chunk": a.get("chunk") or 0, "legacy": bool(a.get("legacy")), "incr": bool(a.get("incr"))}
 
 
@@ -487,6 +499,8 @@ def judge(case, ctx, data, q, assignments, force_nontrivial=False):
                 if q["join"] is not None:
                     feats += "+join"
                 sig = f"C40/{kind}/{root}{loc[4:]}/{st_}/{feats}"
+                if na["splice_trigger"]:
+                    sig = "C40/joinedload/nested-innerjoin-spliced-onto-sibling/self-referential"
                 desc = {k: v for k, v in na.items() if k != "strat"}
                 desc["strat"] = {".".join(s[1] for s in p): v for p, v in na["strat"].items() if v != "default"}
                 raise Violation(
@@ -552,19 +566,21 @@ def check_gen(case, ctx):
 
 # ------------------------------------------------------------------ enumerated: full strategy-pair product on nested paths
 def _fixed_data(n_par=4):
-    """deterministic data set with empty collections, NULL FKs, duplicates of values and a node cycle-free forest"""
+    """deterministic, *partially* total data set: Parent.children / Child.parent / Grandchild.child / Tag.parents / Node.* have
+    rows without a partner (empty collections, NULL FKs) while Child.grandchildren and Parent.tags are total, so an
+    innerjoin=True below an outer join is legal on some nested paths and wrong inner joins change the primary rows"""
     parents = [[i + 1, oq.NAMES[(i * 2) % 6], oq.XS[i % 5], oq.NAMES[(i + 3) % 6]] for i in range(n_par)]
     children, grand = [], []
     for p in parents:
-        for k in range((p[0] * 2) % 4):  # 2,0,2,0.. -> some empty
+        for k in range((p[0] * 2) % 4):  # 2,0,2,0.. -> some parents have no children
             children.append([len(children) + 1, p[0], oq.NAMES[(len(children) + 1) % 6], oq.XS[len(children) % 5], "n"])
-    children.append([len(children) + 1, None, "a", 1, None])
+    children.append([len(children) + 1, None, "a", 1, None])  # orphan
     for c in children:
-        for k in range(c[0] % 3):
+        for k in range(1 + c[0] % 3):  # every child has >= 1 grandchild
             grand.append([len(grand) + 1, c[0], oq.NAMES[len(grand) % 6], oq.XS[(len(grand) + 2) % 5]])
     grand.append([len(grand) + 1, None, "b", None])
-    tags = [[1, "a"], [2, None], [3, "b"]]
-    pt = [[p[0], t[0]] for p in parents for t in tags if (p[0] + t[0]) % 3 != 0]
+    tags = [[1, "a"], [2, None], [3, "b"], [4, "a"]]  # tag 4 has no parents
+    pt = [[p[0], t[0]] for p in parents for t in tags[:3] if (p[0] + t[0]) % 3 != 0]
     nodes = [[1, None, "a", 1], [2, 1, "b", 0], [3, 1, None, 2], [4, 2, "a", None], [5, 4, "ab", 1], [6, None, "", -1], [7, 6, "a", 1]]
     return {"parent": parents, "child": children, "grandchild": grand, "tag": tags, "parent_tag": pt, "node": nodes}
 
@@ -572,6 +588,7 @@ def _fixed_data(n_par=4):
 _SHAPES = {
     "plain": {"join": None, "where": None, "distinct": False, "order": [], "limit": None, "offset": None},
     "window": {"join": None, "where": None, "distinct": False, "order": [["r", 1, True]], "limit": 2, "offset": 1},
+    "offset": {"join": None, "where": None, "distinct": False, "order": [["r", 2, False]], "limit": None, "offset": 2},
     "distinct-join": {"join": [0, False], "where": ["not", ["isnull", "j", "id", False]], "distinct": True, "order": [["r", 2, False]], "limit": 3, "offset": None},
     "outerjoin-dups": {"join": [0, True], "where": None, "distinct": False, "order": [], "limit": 4, "offset": None},
 }
